@@ -22,8 +22,8 @@ the context node `c`.  Only `sel_full2` ever used the hypothesis; `Inv`, `select
   (`sel_full2_from_gen`, `reach_evaluate_restarts_from_gen`)
 * `reach_decOK'`  every reachable state inherits `DecOK'` from its configuration
 * `decOK'_clone`  … and so does a clone
-* drop-in wrappers `Theorems.C02.evaluate_restarts_all_iterators'`,
-  `Theorems.C04.clone_is_fresh_all_iterators'`, `Theorems.C12.C12_all_iterators_refine_sequence'`
+* drop-in wrappers `Theorems.C02.evaluate_restarts_all_iterators_any_predicate`,
+  `Theorems.C04.clone_is_fresh_all_iterators_any_predicate`, `Theorems.C12.C12_all_iterators_refine_sequence_any_predicate`
 
 **Number-valued predicates.**  `Model/Pull2.lean` calls `dec pred n` with the predicate plan and the
 candidate *node*; neither `posit` nor the position of the input machine is passed.  The engine's
